@@ -458,7 +458,10 @@ def _may_be_view_of(e, x, d, depth=0):
     if isinstance(e, ast.Name):
         if e.id == x:
             return True
-        return any(_may_be_view_of(v, x, d, depth + 1) for k, v, st in d.of(e.id) if k == "assign" and isinstance(v, ast.AST))
+        ds = [v for k, v, st in d.of(e.id) if k == "assign" and isinstance(v, ast.AST)]
+        # a name with several definitions (an accumulator that starts as x and is then replaced by call results) is a view
+        # of x only if every definition is: "may" would flag a fold over an empty list, which returns its start value by design
+        return bool(ds) and len(ds) == len(d.of(e.id)) and all(_may_be_view_of(v, x, d, depth + 1) for v in ds)
     if isinstance(e, ast.Attribute):
         return e.attr in ("T", "real") and _may_be_view_of(e.value, x, d, depth + 1)
     if isinstance(e, ast.Subscript):
